@@ -280,6 +280,8 @@ def bounded_fill(s, fill):
             coef = rnd.uniform(20, 400, size=(nvol, len(basis))) * rnd.choice([1, 1, -0.3], size=(nvol, len(basis)))
             if nvol > 1 and rnd.rand() < 0.5:                     # a component that vanishes at one volume only
                 coef[int(rnd.randint(0, nvol)), int(rnd.randint(0, len(basis)))] = 0.0
+            if trial % 3 == 2 and len(basis) > 1:                 # an independent (symmetry-FREE) constant that happens to vanish at every volume: the supplied zeros pin it
+                coef[:, int(rnd.randint(0, len(basis)))] = 0.0
             tens = coef @ basis                                   # (nvol, 21) invariant tensors
             # a sufficient subset: greedily pick columns until the restricted basis has full rank
             order = rnd.permutation(21)
@@ -323,8 +325,9 @@ def bounded_fill(s, fill):
                         msg = "component %s omitted but equals %s" % (name, tens[:, k].tolist())
                         break
                     continue
-                if zero and col is not None and numpy.all(numpy.abs(out[col].to_numpy(dtype=float)) <= 1e-8):
-                    msg = "vanishing component %s kept" % name
+                forced = bool(numpy.all(numpy.abs(basis[:, k]) <= 1e-12)) if len(basis) else False
+                if zero and forced and col is not None and numpy.all(numpy.abs(out[col].to_numpy(dtype=float)) <= 1e-8):
+                    msg = "component %s, which the symmetry forces to vanish, is kept" % name       # a FREE constant that happens to vanish may be listed as zeros or omitted
                     break
                 if not numpy.allclose(out[col].to_numpy(dtype=float), tens[:, k], rtol=0, atol=1e-8 * scale):
                     msg = "component %s returned %s, invariant tensor has %s" % (name, out[col].tolist(), tens[:, k].tolist())
